@@ -92,6 +92,10 @@ let () =
         else (match stuck_witness d with
               | Some (q, b) -> Printf.printf "stuck %d %d\n" (int_of_nat q) (int_of_n b)
               | None -> print_endline "stuck ? ?")
+    | "endsafe" ->
+        let d = parse_dfa () in
+        if end_safe d then print_endline "ok"
+        else (match end_witness d with Some q -> Printf.printf "unsafe %d\n" (int_of_nat q) | None -> print_endline "unsafe ?")
     | "bisim" ->
         let d1 = parse_dfa () in let d2 = parse_dfa () in
         (match dfa_bisim_run d1 d2 with
